@@ -980,4 +980,355 @@ theorem add_appends (t0 : T) (batch : List Change) (hwf : WFAtt t0.att) (hun : t
   · have := i.wf; rw [e] at this; exact this
 
 
+
+/-! ### the stored sequence (`storeInsert`) -/
+
+theorem insertAfter_cons_eq (p x : Nat) (l : List Nat) : insertAfter p x (p :: l) = p :: x :: l := by
+  simp [insertAfter]
+
+theorem insertAfter_cons_ne {a p : Nat} (x : Nat) (l : List Nat) (h : a ≠ p) :
+    insertAfter p x (a :: l) = a :: insertAfter p x l := by
+  simp [insertAfter, h]
+
+theorem mem_insertAfter {p x y : Nat} {l : List Nat} : y ∈ insertAfter p x l ↔ y = x ∨ y ∈ l := by
+  induction l with
+  | nil => simp [insertAfter]
+  | cons a l ih =>
+    unfold insertAfter
+    split
+    · simp only [List.mem_cons]; constructor
+      · rintro (h | h | h) <;> simp [h]
+      · rintro (h | h | h) <;> simp [h]
+    · simp only [List.mem_cons, ih]; constructor
+      · rintro (h | h | h) <;> simp [h]
+      · rintro (h | h | h) <;> simp [h]
+
+theorem nodup_insertAfter {p x : Nat} {l : List Nat} (h : l.Nodup) (hx : x ∉ l) : (insertAfter p x l).Nodup := by
+  induction l with
+  | nil => simp [insertAfter]
+  | cons a l ih =>
+    have h' := List.nodup_cons.mp h
+    have hxa : x ≠ a := fun e => hx (by simp [e])
+    have hxl : x ∉ l := fun e => hx (List.mem_cons_of_mem _ e)
+    unfold insertAfter
+    split
+    · refine List.nodup_cons.mpr ⟨?_, List.nodup_cons.mpr ⟨hxl, h'.2⟩⟩
+      intro hm; rcases List.mem_cons.mp hm with e | e
+      · exact hxa e.symm
+      · exact h'.1 e
+    · refine List.nodup_cons.mpr ⟨?_, ih h'.2 hxl⟩
+      intro hm; rcases mem_insertAfter.mp hm with e | e
+      · exact hxa e.symm
+      · exact h'.1 e
+
+theorem filter_insertAfter_keep (k : Nat → Bool) {p x : Nat} (hx : k x = true) :
+    ∀ l : List Nat, (∀ a ∈ l, a = p → k a = true) → (insertAfter p x l).filter k = insertAfter p x (l.filter k) := by
+  intro l
+  induction l with
+  | nil => intro _; simp [insertAfter, hx]
+  | cons a l ih =>
+    intro hp
+    by_cases hap : a = p
+    · subst hap
+      have hka : k a = true := hp a (by simp) rfl
+      rw [insertAfter_cons_eq, List.filter_cons, if_pos hka, List.filter_cons, if_pos hx,
+        List.filter_cons, if_pos hka, insertAfter_cons_eq]
+    · have ih' := ih (fun b hb => hp b (List.mem_cons_of_mem _ hb))
+      rw [insertAfter_cons_ne x l hap]
+      cases hka : k a
+      · rw [List.filter_cons, List.filter_cons]; simp only [hka, Bool.false_eq_true, if_false]; exact ih'
+      · rw [List.filter_cons, List.filter_cons]; simp only [hka, if_true]
+        rw [insertAfter_cons_ne x _ hap, ih']
+
+theorem filter_insertAfter_drop (k : Nat → Bool) {p x : Nat} (hx : k x = false) :
+    ∀ l : List Nat, (insertAfter p x l).filter k = l.filter k := by
+  intro l
+  induction l with
+  | nil => simp [insertAfter, hx]
+  | cons a l ih =>
+    unfold insertAfter
+    split
+    · simp [List.filter_cons, hx]
+    · simp [List.filter_cons, ih]
+
+theorem insertAfter_append {p x : Nat} {A B : List Nat} (h : p ∉ A) :
+    insertAfter p x (A ++ p :: B) = A ++ p :: x :: B := by
+  induction A with
+  | nil => simp [insertAfter]
+  | cons a A ih =>
+    have hap : a ≠ p := fun e => h (by simp [e])
+    have : p ∉ A := fun e => h (List.mem_cons_of_mem _ e)
+    simp [insertAfter, hap, ih this]
+
+
+/-- the body of the `storeInsert` fold -/
+def storeStep (acc : List Nat × Option Nat) (x : Nat) : List Nat × Option Nat :=
+  if acc.1.contains x then (acc.1, some x)
+  else match acc.2 with
+    | none => (x :: acc.1, some x)
+    | some p => (insertAfter p x acc.1, some x)
+
+theorem storeInsert_eq (S it : List Nat) : storeInsert S it = (it.foldl storeStep (S, none)).1 := rfl
+
+theorem filter_congr_mem {l : List Nat} {p q : Nat → Bool} (h : ∀ y ∈ l, p y = q y) : l.filter p = l.filter q :=
+  List.filter_congr h
+
+theorem storeFold_spec (old : Nat → Bool) (S it' : List Nat) (hit : it'.Nodup)
+    (h0 : S.filter old = it'.filter old) (hnew : ∀ x ∈ it', old x = false → x ∉ S) :
+    ∀ (Q P : List Nat) (acc : List Nat), it' = P ++ Q →
+      acc.Nodup → (∀ x ∈ acc, x ∈ S ∨ x ∈ P) → (∀ x ∈ S, x ∈ acc) → (∀ x ∈ P, x ∈ acc) →
+      acc.filter (fun y => old y || P.contains y) = it'.filter (fun y => old y || P.contains y) →
+      acc.filter (fun y => S.contains y) = S →
+      ((Q.foldl storeStep (acc, P.getLast?)).1.filter (fun y => old y || it'.contains y) = it' ∧
+       (Q.foldl storeStep (acc, P.getLast?)).1.filter (fun y => S.contains y) = S ∧
+       (Q.foldl storeStep (acc, P.getLast?)).1.Nodup ∧
+       (∀ y ∈ (Q.foldl storeStep (acc, P.getLast?)).1, y ∈ S ∨ y ∈ it')) := by
+  intro Q
+  induction Q with
+  | nil =>
+    intro P acc hdec hnd hsub0 _ _ hf hs
+    have hP : it' = P := by simpa using hdec
+    subst hP
+    refine ⟨?_, hs, hnd, hsub0⟩
+    simp only [List.foldl_nil]
+    rw [hf]
+    rw [List.filter_eq_self]
+    intro y hy; simp [hy]
+  | cons x Q ih =>
+    intro P acc hdec hnd hsub hS hP hf hs
+    have hdec' : it' = (P ++ [x]) ++ Q := by rw [hdec]; simp
+    have hx_it : x ∈ it' := by rw [hdec]; simp
+    have hnd_it := hit
+    rw [hdec] at hnd_it
+    have hxP : x ∉ P := by
+      intro h
+      have := (List.nodup_append.mp hnd_it).2.2 x h x (by simp)
+      exact this rfl
+    have hxQ : x ∉ Q := (List.nodup_cons.mp (List.nodup_append.mp hnd_it).2.1).1
+    have hlast : (P ++ [x]).getLast? = some x := List.getLast?_concat
+    simp only [List.foldl_cons]
+    by_cases hc : acc.contains x = true
+    · -- already stored: nothing moves
+      have hstep : storeStep (acc, P.getLast?) x = (acc, (P ++ [x]).getLast?) := by
+        unfold storeStep; rw [if_pos hc, hlast]
+      rw [hstep]
+      have hxacc : x ∈ acc := List.contains_iff_mem.mp hc
+      have hxS : x ∈ S := by
+        rcases hsub x hxacc with h | h
+        · exact h
+        · exact absurd h hxP
+      have hold : old x = true := by
+        cases h : old x
+        · exact absurd hxS (hnew x hx_it h)
+        · rfl
+      have hK : ∀ y, (old y || (P ++ [x]).contains y) = (old y || P.contains y) := by
+        intro y
+        by_cases hyx : y = x
+        · subst hyx; simp [hold]
+        · simp [hyx]
+      apply ih (P ++ [x]) acc hdec' hnd
+      · intro y hy; rcases hsub y hy with h | h
+        · exact Or.inl h
+        · exact Or.inr (List.mem_append.mpr (Or.inl h))
+      · exact hS
+      · intro y hy; rcases List.mem_append.mp hy with h | h
+        · exact hP y h
+        · have : y = x := by simpa using h
+          exact this ▸ hxacc
+      · rw [filter_congr_mem (fun y _ => hK y), filter_congr_mem (l := it') (fun y _ => hK y)]; exact hf
+      · exact hs
+    · -- a new change: placed right after its predecessor
+      have hxacc : x ∉ acc := fun h => hc (List.contains_iff_mem.mpr h)
+      have hxS : x ∉ S := fun h => hxacc (hS x h)
+      have hold : old x = false := by
+        cases h : old x
+        · rfl
+        · exfalso
+          have : x ∈ it'.filter old := List.mem_filter.mpr ⟨hx_it, h⟩
+          rw [← h0] at this
+          exact hxS (List.mem_filter.mp this).1
+      have hKx : (old x || P.contains x) = false := by
+        have : P.contains x = false := contains_false_iff.mpr hxP
+        rw [hold, this]; rfl
+      have hK' : ∀ y, y ≠ x → (old y || (P ++ [x]).contains y) = (old y || P.contains y) := by
+        intro y hyx; simp [hyx]
+      have hK'x : (old x || (P ++ [x]).contains x) = true := by simp
+      -- the new accumulator
+      cases hl : P.getLast? with
+      | none =>
+        have hPnil : P = [] := List.getLast?_eq_none_iff.mp hl
+        subst hPnil
+        have hstep : storeStep (acc, none) x = (x :: acc, ([] ++ [x]).getLast?) := by
+          unfold storeStep; rw [if_neg hc]; rfl
+        rw [hstep]
+        apply ih ([] ++ [x]) (x :: acc) hdec' (List.nodup_cons.mpr ⟨hxacc, hnd⟩)
+        · intro y hy; rcases List.mem_cons.mp hy with h | h
+          · right; simp [h]
+          · rcases hsub y h with h' | h'
+            · exact Or.inl h'
+            · simp at h'
+        · intro y hy; exact List.mem_cons_of_mem _ (hS y hy)
+        · intro y hy; have : y = x := by simpa using hy
+          simp [this]
+        · have hit0 : it' = x :: Q := by simpa using hdec
+          have e1 : it'.filter (fun y => old y || ([] : List Nat).contains y)
+              = Q.filter (fun y => old y || ([] : List Nat).contains y) := by
+            rw [hit0, List.filter_cons]; simp only [hKx, Bool.false_eq_true, if_false]
+          have e2 : it'.filter (fun y => old y || (([] : List Nat) ++ [x]).contains y)
+              = x :: Q.filter (fun y => old y || (([] : List Nat) ++ [x]).contains y) := by
+            rw [hit0, List.filter_cons, if_pos hK'x]
+          rw [e2, List.filter_cons, if_pos hK'x]
+          rw [filter_congr_mem (l := acc) (fun y hy => hK' y (fun e => hxacc (e ▸ hy)))]
+          rw [hf, e1]
+          rw [filter_congr_mem (l := Q) (fun y hy => hK' y (fun e => hxQ (e ▸ hy)))]
+        · rw [List.filter_cons]
+          have : S.contains x = false := contains_false_iff.mpr hxS
+          simp only [this, Bool.false_eq_true, if_false]; exact hs
+      | some p =>
+        obtain ⟨P0, hP0⟩ := List.getLast?_eq_some_iff.mp hl
+        subst hP0
+        have hstep : storeStep (acc, some p) x = (insertAfter p x acc, ((P0 ++ [p]) ++ [x]).getLast?) := by
+          unfold storeStep; rw [if_neg hc, List.getLast?_concat]
+        rw [hstep]
+        have hpP0 : p ∉ P0 := by
+          intro h
+          have h1 : (P0 ++ [p]).Nodup := (List.nodup_append.mp hnd_it).1
+          exact (List.nodup_append.mp h1).2.2 p h p (by simp) rfl
+        apply ih ((P0 ++ [p]) ++ [x]) (insertAfter p x acc) hdec' (nodup_insertAfter hnd hxacc)
+        · intro y hy; rcases mem_insertAfter.mp hy with h | h
+          · right; simp [h]
+          · rcases hsub y h with h' | h'
+            · exact Or.inl h'
+            · exact Or.inr (List.mem_append.mpr (Or.inl h'))
+        · intro y hy; exact mem_insertAfter.mpr (Or.inr (hS y hy))
+        · intro y hy; rcases List.mem_append.mp hy with h | h
+          · exact mem_insertAfter.mpr (Or.inr (hP y h))
+          · have : y = x := by simpa using h
+            exact mem_insertAfter.mpr (Or.inl this)
+        · rw [filter_insertAfter_keep _ hK'x acc (by intro a _ ha; subst ha; simp)]
+          rw [filter_congr_mem (l := acc) (fun y hy => hK' y (fun e => hxacc (e ▸ hy))), hf]
+          have hit0 : it' = P0 ++ p :: x :: Q := by rw [hdec]; simp
+          have hKp : (old p || (P0 ++ [p]).contains p) = true := by simp
+          have hxP0 : x ∉ P0 := fun h => hxP (List.mem_append.mpr (Or.inl h))
+          have hpx : p ≠ x := fun e => hxP (by simp [e])
+          rw [hit0]
+          simp only [List.filter_append, List.filter_cons, hKp, hKx, hK'x, if_true, Bool.false_eq_true, if_false]
+          have hKp' : (old p || (P0 ++ [p] ++ [x]).contains p) = true := by simp
+          simp only [hKp', if_true]
+          rw [insertAfter_append (by
+            intro h; exact hpP0 (List.mem_filter.mp h).1)]
+          rw [filter_congr_mem (l := P0) (fun y hy => hK' y (fun e => hxP0 (e ▸ hy))),
+            filter_congr_mem (l := Q) (fun y hy => hK' y (fun e => hxQ (e ▸ hy)))]
+        · rw [filter_insertAfter_drop _ (contains_false_iff.mpr hxS)]; exact hs
+
+
+theorem iter_mem_ids (root : Nat) (att : List Change) (hwf : WFAtt att) (hroot : root ∈ att.map (·.id)) :
+    ∀ y ∈ iter root att, y ∈ att.map (·.id) := by
+  obtain ⟨rk, hk1, hk2, _⟩ := wf_rank hwf
+  have hext := visit_ext (children att) rk hk1 (att.length + 1) root [] (by have := hk2 root; omega) (good_nil _)
+  intro y hy
+  obtain ⟨pre, hp, hd⟩ := hext.pre
+  have hpre : iter root att = pre := by simpa [iter, rpo] using hp
+  rw [hpre] at hy
+  obtain ⟨x, hx1, hx2⟩ := hd y hy
+  have : x = root := by simpa using hx1
+  subst this
+  have : ∀ a b, Desc (children att) a b → a ∈ att.map (·.id) → b ∈ att.map (·.id) := by
+    intro a b hab
+    induction hab with
+    | refl => exact id
+    | step hc _ ih => exact fun _ => ih (children_mem_ids hc)
+  exact this x y hx2 hroot
+
+theorem iter_good (root : Nat) (att : List Change) (hwf : WFAtt att) : Good (children att) (iter root att) := by
+  obtain ⟨rk, hk1, hk2, _⟩ := wf_rank hwf
+  exact (visit_ext (children att) rk hk1 (att.length + 1) root [] (by have := hk2 root; omega) (good_nil _)).good
+
+/-- **storage**: after an addition the stored sequence restricted to the in-memory changes is the iteration,
+entries stored before are never moved, nothing is stored twice -/
+theorem storeInsert_spec (stored : List Nat) (root : Nat) (att news : List Change)
+    (hwf : WFAtt (att ++ news)) (hroot : root ∈ att.map (·.id)) (hnd : stored.Nodup)
+    (hst : stored.filter (fun x => (att.map (·.id)).contains x) = iter root att)
+    (hfresh : ∀ n ∈ news, n.id ∉ stored) :
+    (storeInsert stored (iter root (att ++ news))).filter (fun x => ((att ++ news).map (·.id)).contains x)
+        = iter root (att ++ news) ∧
+    (storeInsert stored (iter root (att ++ news))).filter (fun x => stored.contains x) = stored ∧
+    (storeInsert stored (iter root (att ++ news))).Nodup := by
+  have hroot' : root ∈ (att ++ news).map (·.id) := by
+    rw [List.map_append]; exact List.mem_append.mpr (Or.inl hroot)
+  have hmem := iter_mem_ids root (att ++ news) hwf hroot'
+  have hgood := iter_good root (att ++ news) hwf
+  have hgrow := iter_growth root att news hwf hroot
+  have hnew : ∀ x ∈ iter root (att ++ news), (att.map (·.id)).contains x = false → x ∉ stored := by
+    intro x hx hold
+    have h1 := hmem x hx
+    rw [List.map_append, List.mem_append] at h1
+    rcases h1 with h1 | h1
+    · rw [List.contains_iff_mem.mpr h1] at hold; exact Bool.noConfusion hold
+    · obtain ⟨n, hn, rfl⟩ := List.mem_map.mp h1
+      exact hfresh n hn
+  have spec := storeFold_spec (fun x => (att.map (·.id)).contains x) stored (iter root (att ++ news)) hgood.1
+    (by rw [hst, hgrow]) hnew (iter root (att ++ news)) [] stored (by simp) hnd
+    (fun x hx => Or.inl hx) (fun x hx => hx) (by simp)
+    (by
+      have : ∀ y, ((att.map (·.id)).contains y || ([] : List Nat).contains y) = (att.map (·.id)).contains y := by
+        intro y; simp
+      rw [filter_congr_mem (fun y _ => this y), filter_congr_mem (l := iter root (att ++ news)) (fun y _ => this y), hst, hgrow])
+    (by rw [List.filter_eq_self]; intro y hy; exact List.contains_iff_mem.mpr hy)
+  rw [storeInsert_eq]
+  obtain ⟨s1, s2, s3, s4⟩ := spec
+  refine ⟨?_, s2, s3⟩
+  refine (filter_congr_mem ?_).trans s1
+  intro y hy
+  symm
+  rcases s4 y hy with hyS | hyI
+  · by_cases hyI : y ∈ iter root (att ++ news)
+    · rw [List.contains_iff_mem.mpr hyI, List.contains_iff_mem.mpr (hmem y hyI)]; simp
+    · rw [contains_false_iff.mpr hyI, Bool.or_false]
+      cases hold : (att.map (·.id)).contains y
+      · cases hM : ((att ++ news).map (·.id)).contains y
+        · rfl
+        · exfalso
+          have h1 := List.contains_iff_mem.mp hM
+          rw [List.map_append, List.mem_append] at h1
+          rcases h1 with h1 | h1
+          · rw [List.contains_iff_mem.mpr h1] at hold; exact Bool.noConfusion hold
+          · obtain ⟨n, hn, rfl⟩ := List.mem_map.mp h1
+            exact hfresh n hn hyS
+      · have h1 := List.contains_iff_mem.mp hold
+        have : y ∈ (att ++ news).map (·.id) := by rw [List.map_append]; exact List.mem_append.mpr (Or.inl h1)
+        rw [List.contains_iff_mem.mpr this]
+  · rw [List.contains_iff_mem.mpr hyI, List.contains_iff_mem.mpr (hmem y hyI)]; simp
+
+
+theorem pos_inj {l : List Nat} {y z : Nat} (hy : y ∈ l) (h : pos l y = pos l z) : y = z := by
+  induction l with
+  | nil => simp at hy
+  | cons a l ih =>
+    by_cases hay : a = y
+    · by_cases haz : a = z
+      · rw [← hay, haz]
+      · have h1 : pos (a :: l) y = 0 := by simp [pos, hay]
+        have h2 : pos (a :: l) z = pos l z + 1 := by simp [pos, haz]
+        omega
+    · by_cases haz : a = z
+      · have h1 : pos (a :: l) z = 0 := by simp [pos, haz]
+        have h2 : pos (a :: l) y = pos l y + 1 := by simp [pos, hay]
+        omega
+      · have h1 : pos (a :: l) z = pos l z + 1 := by simp [pos, haz]
+        have h2 : pos (a :: l) y = pos l y + 1 := by simp [pos, hay]
+        rcases List.mem_cons.mp hy with e | e
+        · exact absurd e.symm hay
+        · exact ih e (by omega)
+
+theorem pos_filter_lt_rev (k : Nat → Bool) (l : List Nat) (y z : Nat) (hy : k y = true) (hz : k z = true)
+    (hzl : z ∈ l) (h : pos (l.filter k) y < pos (l.filter k) z) : pos l y < pos l z := by
+  rcases Nat.lt_trichotomy (pos l y) (pos l z) with h1 | h1 | h1
+  · exact h1
+  · have : z = y := pos_inj hzl h1.symm
+    subst this; omega
+  · have := pos_filter_lt k l z y hz hy h1
+    omega
+
+
 end AnySync.Tree
